@@ -69,6 +69,9 @@ KF = {
     "sho": lambda dt, th: th["sigma"] ** 2 * np.exp(-th["scale"] * np.abs(dt) / (2 * th["q"])) * (
         np.cos(np.sqrt(4 * th["q"] ** 2 - 1) * th["scale"] * np.abs(dt) / (2 * th["q"]))
         + np.sin(np.sqrt(4 * th["q"] ** 2 - 1) * th["scale"] * np.abs(dt) / (2 * th["q"])) / np.sqrt(4 * th["q"] ** 2 - 1)),
+    "sho_over": lambda dt, th: th["sigma"] ** 2 * np.exp(-th["scale"] * np.abs(dt) / (2 * th["q"])) * (
+        np.cosh(np.sqrt(1 - 4 * th["q"] ** 2) * th["scale"] * np.abs(dt) / (2 * th["q"]))
+        + np.sinh(np.sqrt(1 - 4 * th["q"] ** 2) * th["scale"] * np.abs(dt) / (2 * th["q"])) / np.sqrt(1 - 4 * th["q"] ** 2)),
 }
 
 
@@ -136,7 +139,12 @@ def run(chk):
              dict(scale=float(rng.uniform(0.6, 2)), sigma=float(rng.uniform(0.6, 1.5)), noise=0.3, mean=0.2)),
             ("qs.SHO(under)", lambda t: qs.SHO(t["scale"], t["q"], t["sigma"]), KF["sho"],
              dict(scale=float(rng.uniform(0.6, 2)), sigma=float(rng.uniform(0.6, 1.5)), q=float(rng.uniform(0.8, 3)), noise=0.3, mean=0.2)),
-        ):
+            # quality factors just outside the documented band |Q - 1/2| < 1e-3, on both sides
+            ("qs.SHO(under, band edge)", lambda t: qs.SHO(t["scale"], t["q"], t["sigma"]), KF["sho"],
+             dict(scale=float(rng.uniform(0.6, 2)), sigma=float(rng.uniform(0.6, 1.5)), q=0.5 + 1.5e-3, noise=0.3, mean=0.2)),
+            ("qs.SHO(over, band edge)", lambda t: qs.SHO(t["scale"], t["q"], t["sigma"]), KF["sho_over"],
+             dict(scale=float(rng.uniform(0.6, 2)), sigma=float(rng.uniform(0.6, 1.5)), q=0.5 - 1.5e-3, noise=0.3, mean=0.2)),
+        )[: (3 if rep else 5)]:
             solvers = [DirectSolver] + ([QuasisepSolver] if kname.startswith("qs") else [])
             for scls in solvers:
                 def logp(t, yy, mk=mk, scls=scls):
